@@ -237,10 +237,22 @@ pub fn gen_record(r: &mut Prng, format: Format, uniq: usize) -> Rec {
             };
             let decimal = r.chance(1, 4);
             let midpoints = decimal && r.chance(1, 3);
+            let spellings = decimal && !midpoints && r.chance(1, 3);
             for _ in 0..rec.syms.len() * width {
                 if midpoints && r.chance(1, 3) {
                     let (lo, hi) = *r.pick(&[(0.0f32, 1.0f32), (1.0, 50.0), (16_777_000.0, 16_778_000.0), (0.5, 0.5001)]);
                     rec.cells.push(midpoint_literal(r, lo, hi));
+                } else if spellings && r.chance(1, 2) {
+                    // other spellings of a number that the readers' float syntax covers
+                    let v = r.below(5000) as f64 / 8.0;
+                    rec.cells.push(match r.below(6) {
+                        0 => format!("{:e}", v),
+                        1 => format!("{:E}", v),
+                        2 => format!("{:.3e}", v),
+                        3 => format!("{:.2E}", v),
+                        4 => format!("{}.", v.trunc()),
+                        _ => format!("{:.1}", v),
+                    });
                 } else if decimal {
                     let whole = r.below(50);
                     let frac = *r.pick(&["0", "25", "5", "75", "125", "1", "333"]);
@@ -287,6 +299,17 @@ pub fn gen_record(r: &mut Prng, format: Format, uniq: usize) -> Rec {
                 rec.cells[width + p] = format!("{:.4}", (1.0 - v).max(0.0));
                 for s in 2..k {
                     rec.cells[s * width + p] = "0.000".to_string();
+                }
+            }
+            // scientific notation, as written by many tools for small frequencies (both exponent cases)
+            if k >= 2 && r.chance(1, 6) {
+                let p = r.usize_below(width);
+                let tiny = *r.pick(&["1.0E-5", "1e-05", "6.05e-05", "2.5E-4", "1.5e-3", "9E-6"]);
+                let v: f64 = tiny.parse().unwrap();
+                rec.cells[p] = tiny.to_string();
+                rec.cells[width + p] = format!("{:.6}", 1.0 - v);
+                for s in 2..k {
+                    rec.cells[s * width + p] = "0".to_string();
                 }
             }
             rec.blank_after = match r.below(4) {
